@@ -281,6 +281,12 @@ func (e *Emitter) emitScriptStatement(scriptStmt *ast.ScriptStatement, textLabel
 				branchBehavior: &breakContext{destChunkID: destChunkID},
 			}
 			finalChunks[completeChunk.id] = completeChunk
+			if !curChunk.isLastStatement(i) {
+				// A 'continue' selected by a poryswitch can be followed by more statements,
+				// which may hold labels: keep them, like the statements after a 'break'.
+				chunkCounter++
+				remainingChunks = append(remainingChunks, curChunk.createPostLogicChunk(chunkCounter, i))
+			}
 		} else if stmt, ok := curChunk.statements[i].(*ast.SwitchStatement); ok {
 			newRemainingChunks, jump, returnID := createSwitchStatementChunks(stmt, i, curChunk, remainingChunks, &chunkCounter)
 			remainingChunks = newRemainingChunks
